@@ -76,7 +76,8 @@ NewArena ==
     \* debt positive at the waking call, artificial debt reduction since
     cyc |-> [valid |-> FALSE, H |-> 0, A |-> 0, wokeDebt |-> FALSE, negAdj |-> FALSE],
     \* the sleep promise after an atomic cycle: threshold (x16) and allocations since
-    slp |-> [valid |-> FALSE, T |-> 0, A |-> 0] ]
+    slp |-> [valid |-> FALSE, T |-> 0, A |-> 0],
+    swAllocs |-> 0 ]          \* allocations made while this cycle was Sweeping (not swept, hence not "survivors")
 
 Init0 ==
   [ ar |-> <<>>,              \* arena number -> arena shadow
@@ -89,6 +90,8 @@ Init0 ==
     cb |-> "", cbArena |-> 0, cbMutated |-> FALSE,
     call |-> "", callArena |-> 0, callBefore |-> "", callReach |-> {}, callRes |-> {},
     callCountBefore |-> 0, callDebtPos |-> FALSE,
+    callDebtQ |-> 0,          \* the debt (x16) when the running call began
+    callCredQ |-> 0,          \* credit (x16) the running call has certainly earned: observed destructs x drop_factor + releases x free_factor
     cbDebt |-> 0, cbFwd |-> 0,
     viol |-> {}, nviol |-> 0, vcount |-> [r \in {} |-> 0],
     hits |-> [r \in {} |-> 0],
@@ -151,7 +154,8 @@ OnAlloc(m, e, i) ==
                       !.strong = @ @@ (o :> <<>>), !.weak = @ @@ (o :> <<>>),
                       !.ar[a].objs = @ \cup {o}]
       m2 == [Mutated(m1, a) EXCEPT !.ar[a].reachValid = m.ar[a].reachValid,   \* a fresh object is not reachable yet
-                                   !.ar[a].cyc.A = @ + 1, !.ar[a].slp.A = @ + 1]
+                                   !.ar[a].cyc.A = @ + 1, !.ar[a].slp.A = @ + 1,
+                                   !.ar[a].swAllocs = IF m.ar[a].phase = "Sweeping" THEN @ + 1 ELSE @]
   IN \* C17 (core part): the value is aligned and lies inside the block, after the bookkeeping
      Check(m2, e.tracked, e.off >= 16 /\ e.off % e.align = 0, "C17", "r1", i, o)
 
@@ -251,7 +255,8 @@ ObserveState(m, e, i, outsideCb) ==
       \* C09 r5: after an atomic cycle the collector reports zero debt until the allocations since
       \* exceed max(min_sleep, sleep_factor x survivors), and positive debt once they do
       sl == m.ar[a].slp
-      m5 == Check(m4, sl.valid /\ e.phase = "Sleeping" /\ e.count > 0 /\ e.ev # "call_end",
+      m4i == IF sl.valid /\ Get(sl, "inc", FALSE) /\ e.phase = "Sleeping" /\ e.ev # "call_end" THEN Hit(m4, "C09.r5i") ELSE m4
+      m5 == Check(m4i, sl.valid /\ e.phase = "Sleeping" /\ e.count > 0 /\ e.ev # "call_end",
                   e.debt_pos = (16 * sl.A > sl.T), "C09", "r5", i, sl.A)
       \* C20 r2: nothing that happened since the last operation on THIS arena (operations on other
       \* arenas, handle clones and drops) changed its phase, count or debt
@@ -307,7 +312,7 @@ OnCallBegin(m, e, i) ==
       \* marking that begins in this call begins with no mutation in between
       m3 == IF e.phase = "Sleeping" THEN [m2 EXCEPT !.ar[a].mutSinceWake = FALSE] ELSE m2
   IN [m3 EXCEPT !.call = e.kind, !.callArena = a, !.callBefore = e.phase, !.callReach = rm[1],
-                !.callDebtPos = e.debt_pos,
+                !.callDebtPos = e.debt_pos, !.callDebtQ = e.debtQ, !.callCredQ = 0,
                 !.callRes = Close(m2, m2.ar[a].resurrected), !.callCountBefore = e.count]
 
 OnCallEnd(m, e, i) ==
@@ -356,14 +361,22 @@ OnCallEnd(m, e, i) ==
       crossed == e.kind = "collect_debt" /\ before # "Sleeping"
       cyc2 == IF woke /\ ok THEN [valid |-> TRUE, H |-> m.callCountBefore, A |-> 0, wokeDebt |-> m.callDebtPos, negAdj |-> FALSE]
               ELSE IF after = "Sleeping" \/ crossed \/ ~ok THEN [cy EXCEPT !.valid = FALSE] ELSE cy
+      \* ... and so does an INCREMENTAL cycle that certainly carried no debt over: the call that finished it began
+      \* with a debt that the destructs and releases observed during it alone pay for.  Survivors are what the sweep
+      \* kept: everything counted now except what was allocated while Sweeping.
+      incFinish == ok /\ pk = "exact" /\ before # "Sleeping" /\ after = "Sleeping" /\ e.kind \in {"cycle_debt", "finish_cycle"}
+                   /\ m.callDebtQ <= m.callCredQ
       slp2 == IF ranAtomic /\ pk = "exact"
               THEN [valid |-> TRUE, T |-> MaxI(e.count * pc.sf, 16 * pc.ms), A |-> 0]
+              ELSE IF incFinish
+              THEN [valid |-> TRUE, T |-> MaxI((e.count - m.ar[a].swAllocs) * pc.sf, 16 * pc.ms), A |-> 0, inc |-> TRUE]
               ELSE IF after # "Sleeping" \/ ~ok \/ (e.kind = "collect_debt" /\ m.callDebtPos) \/ (e.kind = "cycle_debt" /\ m.callDebtPos)
                    THEN [m.ar[a].slp EXCEPT !.valid = FALSE] ELSE m.ar[a].slp
       m5 == [m4h EXCEPT !.call = "", !.ar[a].cyc = cyc2, !.ar[a].slp = slp2,
                        !.ar[a].resurrected = IF ended THEN {} ELSE @,
                        !.ar[a].adopted = IF after = "Sleeping" THEN {} ELSE @,
                        !.ar[a].wadopted = IF after = "Sleeping" THEN {} ELSE @,
+                       !.ar[a].swAllocs = IF after = "Sweeping" THEN @ ELSE 0,
                        !.ar[a].mutSinceWake = IF began THEN FALSE ELSE @]
   IN m5
 
@@ -392,9 +405,10 @@ OnDestruct(m, e, i) ==
       \* C20 r1: only operations on the owning arena reclaim
       m5 == Check(m4, m.call # "" \/ m.cb # "",
                   a = (IF m.call # "" THEN m.callArena ELSE m.cbArena), "C20", "r1", i, o)
+      inCall == m.call \notin {"", "drop"} /\ m.callArena = a
   IN IF Get(e, "panics", FALSE)
      THEN [m5 EXCEPT !.destructed = @ \cup {o}, !.dpanic = @ \cup {o}, !.dpanicNow = TRUE]
-     ELSE [m5 EXCEPT !.destructed = @ \cup {o}]
+     ELSE [m5 EXCEPT !.destructed = @ \cup {o}, !.callCredQ = IF inCall THEN @ + m.ar[a].pc.df ELSE @]
 
 OnRelease(m, e, i) ==
   LET o == e.o IN
@@ -419,7 +433,8 @@ OnRelease(m, e, i) ==
       m6 == Check(m5, TRUE, e.guard_ok, "C17", "r3", i, o)
       m7 == Check(m6, m.call # "" \/ m.cb # "",
                   a = (IF m.call # "" THEN m.callArena ELSE m.cbArena), "C20", "r1", i, o)
-  IN [m7 EXCEPT !.released = @ \cup {o}]
+  IN [m7 EXCEPT !.released = @ \cup {o},
+                !.callCredQ = IF m.call \notin {"", "drop"} /\ m.callArena = a THEN @ + m.ar[a].pc.ff ELSE @]
 
 \* a hop of the lock-step traversal
 OnDeref(m, e, i) ==
